@@ -157,10 +157,12 @@ _codec_check(
     "C10", "fault_enumeration",
     "case = (type, value, direction, k, error): a counting dry run gives the N primitive calls the operation makes on LogWriter/LogReader (directly and through BoundedWriter/BoundedReader); then "
     "the k-th call fails with each of ReadLimitReached/WriteLimitReached, StreamError, IOError, ProtocolError, DebugError for every k < N (N capped at 400). Oracle = the call log: returned error == "
-    "injected error, zero calls after the failure, nothing written when Prepare fails; handle resolution errors are returned unchanged.",
-    {"quick": 50000, "thorough": 500000}, ["c10_write_faults", "c10_read_faults", "c10_fault_at_Prepare_w", "c10_fault_at_Ensure_r", "c10_fault_at_Skip_r", "c10_fault_at_PushHandle_w", "c10_fault_at_GetHandle_r"],
+    "injected error, zero calls after the failure, nothing written when Prepare fails; handle resolution errors are returned unchanged. "
+    "RPC layer: every writer call of three requests through SimpleMethodSender (value-returning and void methods) and every reader call of the reply; every reader call of the request and every writer call of the "
+    "reply in the dispatcher with lambda and member-function bindings: error returned unchanged, no further calls, no reply read after a failed send, no handler / reply after a failed request read.",
+    {"quick": 50000, "thorough": 500000}, ["c10_write_faults", "c10_read_faults", "c10_rpc_sender_write_faults", "c10_rpc_sender_read_faults", "c10_rpc_dispatch_read_faults", "c10_rpc_dispatch_write_faults", "c10_fault_at_Prepare_w", "c10_fault_at_Ensure_r", "c10_fault_at_Skip_r", "c10_fault_at_PushHandle_w", "c10_fault_at_GetHandle_r"],
     "fault enumeration: for each generated value every primitive-call index is failed with every error code (exhaustive in k per value); types and values are sampled.",
-    "the instrumented LogReader/LogWriter implement the documented Reader/Writer interface; the RPC sender/receiver anchors are covered by the C14 check",
+    "the instrumented LogReader/LogWriter implement the documented Reader/Writer interface",
     "exhaustive fail-at-k injection through instrumented reader/writer with call-log oracle")
 
 _codec_check(
